@@ -20,7 +20,7 @@ func init() {
 			"(R-C19-CLEAR) Clear zeroes every word of the bitset on every path; " +
 			"(R-C19-CTOR) getSize floors its argument at 512 before a doubling loop that returns (size, exponent) with size = 2^exponent ≥ n; NewBloomFilter stores mask size−1, shift 64−exponent, setLocs, and allocates size>>6 words from that same size; " +
 			"(R-C19-JSON) JSONMarshal exports len(bitset)<<3 bytes, byte i read at &bitset[0]+i, and setLocs; newWithBoolset writes byte i at &bitset[0]+i of NewBloomFilter(float64(len<<3), float64(locs)); the fields imported are the fields exported. " +
-			"NOT decided: that getSize(len<<3) reproduces the original size for every parameterisation (true for the powers of two it produces; arithmetic), float rounding in calcSizeByWrongPositives.",
+			"NOT decided: that getSize(len<<3) reproduces the original size for every parameterisation (true for the powers of two it produces; arithmetic), float arithmetic in calcSizeByWrongPositives beyond the direction of the rounding of the location count (up).",
 		Run: runC19,
 	})
 }
@@ -35,7 +35,7 @@ func runC19(c *Ctx) {
 	L.Rule("R-C19-SETISSET", "Set and IsSet address the same byte and bit; mask table is 1<<k", 3)
 	L.Rule("R-C19-ADDIFNOT", "AddIfNotHas: Has => false without Add; else Add then true", 1)
 	L.Rule("R-C19-CLEAR", "Clear zeroes every word on every path", 1)
-	L.Rule("R-C19-CTOR", "getSize: floor 512 then doubling loop; constructor fields and allocation from the same size", 2)
+	L.Rule("R-C19-CTOR", "getSize: floor 512 then doubling loop; constructor fields and allocation from the same size; hash-location count rounded up", 3)
 	L.Rule("R-C19-JSON", "marshal/unmarshal byte addressing, lengths and setLocs agree", 3)
 
 	posExpr := func(fn *ssa.Function, tb *TB, callee string) (string, *ssa.Call, *ssa.Phi) {
@@ -228,37 +228,29 @@ func runC19(c *Ctx) {
 		}
 	})
 
-	c.Group("R-C19-CLEAR", "Bloom.Clear", func() {
-		fn := P.Fn("z", "Bloom", "Clear")
+	bloomClearRule(c, "R-C19-CLEAR")
+
+	c.Group("R-C19-CTOR", "calcSizeByWrongPositives#locs", func() {
+		fn := P.Fn("z", "", "calcSizeByWrongPositives")
 		L.Analysed(fname(fn))
 		tb := newTB(fn)
-		var st *ssa.Store
-		eachInstr(fn, func(in ssa.Instruction) {
-			if s, ok := in.(*ssa.Store); ok && isConst(s.Val, "0") && Match("idx(fld[bitset](p[0]),_)", tb.pointee(s.Addr), nil) {
-				st = s
+		ok := true
+		n := 0
+		for _, r := range returnsOf(fn) {
+			rv := returnValues(r)
+			if len(rv) != 2 {
+				continue
 			}
-		})
-		if st == nil {
-			L.Fail("R-C19-CLEAR", "Bloom.Clear", "Clear does not store 0 into the bitset words", fn.Pos())
-			return
-		}
-		var hdr *ssa.If
-		for _, b := range fn.Blocks {
-			if iff := lastIf(b); iff != nil && condPolarity(tb.T(iff.Cond), "lt(_,call[len](fld[bitset](p[0])))", nil) != 0 {
-				hdr = iff
+			n++
+			t := tb.T(rv[1])
+			if !Match("conv[uint64](call[math.Ceil](_))", t, nil) {
+				ok = false
+				L.Fail("R-C19-CTOR", "calcSizeByWrongPositives#locs", "the number of hash locations is "+t.String()+", not a positive quantity rounded UP (math.Ceil): rounding to nearest or down yields 0 locations for high false-positive rates, and with 0 locations Has is vacuously true (AddIfNotHas never adds, Clear does not empty)", r.Pos())
 			}
 		}
-		if hdr == nil {
-			L.Fail("R-C19-CLEAR", "Bloom.Clear", "Clear does not range over the whole bitset", fn.Pos())
-			return
+		if ok {
+			L.Check(n > 0, "R-C19-CTOR", "calcSizeByWrongPositives#locs", "hash-location count is rounded up (≥ 1 for every positive ratio)", "no two-result return found", fn.Pos())
 		}
-		// every path from entry to a return goes through the loop header, and the only way out of the loop is exhaustion
-		bad, _ := mustPass(entryPos(fn), isInstr(hdr), nil)
-		body := hdr.Block().Succs[0]
-		esc, _ := reach(Pos{body, 0}, isReturn, isInstr(hdr), nil)
-		skip, _ := reach(Pos{body, 0}, isInstr(hdr), isInstr(st), nil)
-		L.Check(bad == nil && esc == nil && skip == nil, "R-C19-CLEAR", "Bloom.Clear", "every word := 0 on every path",
-			"Clear can return without zeroing every word of the bitset (early return or skipped word): bits loaded or set earlier survive", instrPos(bad))
 	})
 
 	c.Group("R-C19-CTOR", "getSize", func() {
@@ -464,5 +456,44 @@ func runC19(c *Ctx) {
 			ok = ok && fromFS
 		}
 		L.Check(ok, "R-C19-JSON", "JSONUnmarshal", "rebuilds from the exported FilterSet and SetLocs", "JSONUnmarshal does not pass the exported FilterSet and SetLocs to newWithBoolset", fn.Pos())
+	})
+}
+
+// bloomClearRule: Bloom.Clear zeroes every word of the bitset on every path (loop bound is the
+// length of the bitset itself). Shared by C19 and C18 (the doorkeeper is a z.Bloom: a word that
+// survives Clear keeps first-access marks across aging resets and clears).
+func bloomClearRule(c *Ctx, ruleID string) {
+	L, P := c.L, c.P
+	c.Group(ruleID, "Bloom.Clear", func() {
+		fn := P.Fn("z", "Bloom", "Clear")
+		L.Analysed(fname(fn))
+		tb := newTB(fn)
+		var st *ssa.Store
+		eachInstr(fn, func(in ssa.Instruction) {
+			if s, ok := in.(*ssa.Store); ok && isConst(s.Val, "0") && Match("idx(fld[bitset](p[0]),_)", tb.pointee(s.Addr), nil) {
+				st = s
+			}
+		})
+		if st == nil {
+			L.Fail(ruleID, "Bloom.Clear", "Clear does not store 0 into the bitset words", fn.Pos())
+			return
+		}
+		var hdr *ssa.If
+		for _, b := range fn.Blocks {
+			if iff := lastIf(b); iff != nil && condPolarity(tb.T(iff.Cond), "lt(_,call[len](fld[bitset](p[0])))", nil) != 0 {
+				hdr = iff
+			}
+		}
+		if hdr == nil {
+			L.Fail(ruleID, "Bloom.Clear", "Clear does not range over the whole bitset", fn.Pos())
+			return
+		}
+		// every path from entry to a return goes through the loop header, and the only way out of the loop is exhaustion
+		bad, _ := mustPass(entryPos(fn), isInstr(hdr), nil)
+		body := hdr.Block().Succs[0]
+		esc, _ := reach(Pos{body, 0}, isReturn, isInstr(hdr), nil)
+		skip, _ := reach(Pos{body, 0}, isInstr(hdr), isInstr(st), nil)
+		L.Check(bad == nil && esc == nil && skip == nil, ruleID, "Bloom.Clear", "every word := 0 on every path",
+			"Clear can return without zeroing every word of the bitset (early return or skipped word): bits loaded or set earlier survive", instrPos(bad))
 	})
 }
